@@ -133,7 +133,9 @@ def processLine (prop : String) (line : String) : String := Id.run do
         prop, op, variant, ints, fmt := f,
         inp := xin.map xqToOpt, cls := impl.cls, label := impl.label,
         out := (implVals.map xqToOpt).toArray, flags := impl.flags,
-        exact := (ex.vals.map xqToOpt).toArray, exactCls := ex.cls }
+        exact := (ex.vals.map xqToOpt).toArray, exactCls := ex.cls,
+        rej := (match impl.rej with | some r => xqToOpt (decodeBits .f64 r) | none => none),
+        rejSpecial := (match impl.rej with | some r => (xqToOpt (decodeBits .f64 r)).isNone | none => false) }
       let orc := match Oracle.oracle oc with
         | none => "skip"
         | some [] => "pass"
